@@ -940,6 +940,17 @@ def worker(args):
             sim = run_history(alpha, seed_of(base, i), length, kinds)
             out.append((i, sim.lines, sim.impl, sim.calls,
                         sim.internal_error, sim.unitary_bad))
+        except (IndexError, KeyError, AssertionError, ValueError,
+                AttributeError, TypeError) as e:
+            # the generator itself reads the circuit through the public API
+            # (c[p], surround, get_region ...); if that fails on a state the
+            # same API reported as occupied, the circuit is internally
+            # inconsistent: keep the history up to here and report it (C05)
+            sim = getattr(e, 'sim', None)
+            tb = traceback.format_exc()
+            out.append((i, ['new 2'], ['PROBE-FAILED # # '], ['(generator '
+                        'probe of the circuit failed)'],
+                        ('probe', repr(e) + '\n' + tb[-1800:]), None))
         except Exception as e:  # harness bug: surface it
             out.append((i, None, None, None,
                         ('HARNESS', repr(e) + traceback.format_exc()[-2000:]),
